@@ -180,6 +180,25 @@ Theorem C20_obb_corners_belong_3d : forall c0 c1 c2 h0 h1 h2 r00 r01 r02 r10 r11
                      o_rot := [[r00; r01; r02]; [r10; r11; r12]; [r20; r21; r22]] |} [p0; p1; p2] = true.
 Proof. exact corner3_inside. Qed.
 
+(* --- oriented box -> axis-aligned box in ANY dimension, with the oriented box read as the point set
+       { c + R q : |q_j| <= h_j } (= what isInside accepts for 2D/3D rotations, theorems ..._is_rigid_image_2d/3d);
+       no orthogonality needed: every such point is inside the derived box, and for every axis i some corner
+       q in {+-h} puts coordinate i on the face c_i + e_i and the opposite corner on c_i - e_i. --- *)
+Theorem C20_obb_to_aabb_encloses : forall (c h : list R) (Rm : list (list R)) q,
+  length Rm = length c -> Forall2 (fun q h => Rabs q <= h) q h ->
+  aabb_inside ROps (obb_to_aabb ROps {| o_center := c; o_half := h; o_rot := Rm |}) (vadd ROps c (mul_vec ROps Rm q)) = true.
+Proof. exact obb_image_in_aabb. Qed.
+Print Assumptions C20_obb_to_aabb_encloses.
+
+Theorem C20_obb_to_aabb_tight : forall (c h : list R) (Rm : list (list R)) i,
+  length Rm = length c -> (i < length c)%nat -> Forall (fun x => 0 <= x) h ->
+  let e := (a_half (obb_to_aabb ROps {| o_center := c; o_half := h; o_rot := Rm |})).[i] in
+  exists q, Forall2 (fun q h => q = h \/ q = - h) q h /\
+    (vadd ROps c (mul_vec ROps Rm q)).[i] = c.[i] + e /\
+    (vadd ROps c (mul_vec ROps Rm (map Ropp q))).[i] = c.[i] - e.
+Proof. exact obb_aabb_face_touched. Qed.
+Print Assumptions C20_obb_to_aabb_tight.
+
 (* --- non-vacuity --- *)
 Example C20_ex_rotation2 : forall a, orthogonal2 (cos a) (- sin a) (sin a) (cos a).
 Proof. exact rotation2_orthogonal. Qed.
